@@ -215,7 +215,9 @@ def gen_proc_case(rng):
                         wall_step=rng.choice([0, 0, 0, -3600, 120, -0.3, 86400 * 365]),
                         interval=(dt if blocking and dt > 0 else rng.choice([None, 0, 0.0])),
                         oversleep=rng.choice([0, 0, dt * 0.5, dt * 2, 0.3])))
-    return dict(proc=True, ops=ops)
+    # the number of CPUs online while this process is measured: not necessarily what it was when psutil was imported
+    # (a resized VM, CPUs taken offline); it does not enter the documented figure
+    return dict(proc=True, ops=ops, ncpu=rng.choice([None, None, 1, 3, 16, 32, 64, 255]))
 
 
 # ---- runner -------------------------------------------------------------------------------------------
@@ -409,6 +411,10 @@ def run_proc_case(case, acc):
         old_time, old_timer = ps.time, ps._timer
         ps.time = env["vkernel"].TimeProxy(clock, old_time)
         ps._timer = clock.now
+        old_cpu_count = ps.cpu_count
+        if case.get("ncpu"):
+            ps.cpu_count = lambda logical=True, _n=case["ncpu"]: _n
+            acc.count("process_percent_cases_with_another_cpu_count_than_at_import")
         try:
             pr = ps.Process(pid)
             prev = None
@@ -460,7 +466,13 @@ def run_proc_case(case, acc):
                     want = Fraction(0) if dwall == 0 else 100 * dcpu / dwall
                     if 0 < dwall < 1:
                         nontrivial = True
-                    if abs(Fraction(got) - want) > Fraction(0.05) + abs(want) * Fraction(1, 10**9):
+                    # the figure is computed in double precision from two time stamps scaled by the CPU count: with a count that
+                    # is no power of two each scaled stamp is rounded (relative 2**-53), i.e. the interval carries an error of
+                    # up to ~4 * 2**-53 * t / dwall - float noise, not a wrong share
+                    rel = Fraction(1, 10**9)
+                    if case.get("ncpu") and dwall > 0:
+                        rel += Fraction(4, 2**53) * Fraction(now[2]) / dwall
+                    if abs(Fraction(got) - want) > Fraction(0.05) + abs(want) * rel:
                         viols.append(("process_cpu_percent_wrong", ctx + f" op#{i} got {got} want {float(want)}"))
                 prev = now
             try:
@@ -470,6 +482,7 @@ def run_proc_case(case, acc):
                 pass
         finally:
             ps.time, ps._timer = old_time, old_timer
+            ps.cpu_count = old_cpu_count
     acc.case(case, nontrivial, viols)
 
 
